@@ -593,6 +593,7 @@ func (ex *Exec) copyOp(fr *Frame, c *ssa.CallCommon, args []Val, st *State, reac
 			Eq(Select(Select(nh, dArr), iv), Select(Select(h, dArr), iv)))))
 		st.heaps[name] = nh
 		ex.noteWrite(name, dArr)
+		ex.mirrorView(dArr, name, st)
 	}
 	return Scalar{n, types.Typ[types.Int]}
 }
